@@ -350,6 +350,10 @@ package soyhtml
 //@   ensures[non-nil] result != nil
 //@   ensures[is-positioned;C19] typeis(result, *errortypes.errFilePos)
 
+// While an expression is evaluated the command it belongs to stays the current
+// node (at() does not move it): an error raised in the expression is reported
+// at the command - also for quoted attribute expressions, whose nodes carry
+// positions relative to the attribute value.
 // eval leaves the "current node" where it was: after evaluating a
 // sub-expression the state again points at the enclosing command, so the error
 // built by the entry state names the outermost failing command.
@@ -359,7 +363,8 @@ package soyhtml
 //@   props C19 C08 C09
 //@   nosafety
 //@   modifies *
-//@   ensures[restores-current-node] s.node == old(s.node)
+//@   ensures[restores-current-node] s.node == old(s.node) && s.inExpr == old(s.inExpr)
+//@   at call (*state).walk#0 assert[an-expression-is-evaluated-with-its-command-as-the-current-node;C19] arg0 == s && s.inExpr
 
 //@ func (*state).templateName
 //@   props C06 C19
@@ -585,6 +590,7 @@ package soyhtml
 //@   like stateMethod
 //@   trustedensures[frames-kept;C02] len(s.context) == old(len(s.context)) && forall(i, 0, len(s.context), s.context[i].vars == old(s.context[i].vars) && s.context[i].entered == old(s.context[i].entered) && unchangedmap(s.context[i].vars)) && forall(i, 0, len(s.context), old(s.context)[i].vars == old(s.context[i].vars)) && otherarraysunchanged(s.context) && (base(s.context) == old(base(s.context)) || base(s.context) >= old(allocmark()))
 //@   nosafety
+//@   ensures[current-node-moves-only-outside-expressions;C19] ite(old(s.inExpr), s.node == old(s.node), s.node == node) && s.inExpr == old(s.inExpr)
 
 // The builtin functions and directives (the default contents of the registries)
 // respect the same frame that calls through the registries are assumed to have.
